@@ -217,6 +217,11 @@ func (P *Program) AddStub(target, repl string) error {
 	return nil
 }
 
+func (P *Program) ClearStubs() {
+	P.stubFns = map[string]*ssa.Function{}
+	P.stubKinds = map[string]string{}
+}
+
 var blanketStubPkgs = []string{
 	"github.com/cnotch/xlog",
 	"go.uber.org/zap",
